@@ -1488,10 +1488,33 @@ func (c *Ctx) RuleIncludePass() *Result {
 					return
 				}
 			}
-			if sf == nil || !c.P.IsRepoFn(sf) {
+			if sf == nil {
+				// the builder is handed in as a function value (one helper for include and
+				// include-except, the builder being the strategy): the builders are what the callers pass
+				if par, isPar := x.Call.Value.(*ssa.Parameter); isPar {
+					pi := paramIndex(fn, par)
+					for _, e := range c.Graph().In[fn] {
+						cc := callCommon(e.Site)
+						if cc == nil || staticFn(cc) != fn || pi < 0 || pi >= len(cc.Args) {
+							continue
+						}
+						a := cc.Args[pi]
+						if ct, isCT := a.(*ssa.ChangeType); isCT {
+							a = ct.X
+						}
+						if bf, isFn := a.(*ssa.Function); isFn && c.P.IsRepoFn(bf) {
+							builders[load.FnName(bf)+"@"+load.FnName(fn)] = true
+							res.Instances++
+							res.ok(load.FnName(fn)+":text of "+load.FnName(bf), c.P.InstrPos(x), "reaches the parser's output as returned (the builder is passed as a function value by "+load.FnName(e.Caller)+")")
+						}
+					}
+				}
 				return
 			}
-			if sf.Signature.Recv() != nil && recvNamed(sf.Object().(*types.Func)) == "Parser" {
+			if !c.P.IsRepoFn(sf) {
+				return
+			}
+			if sf.Signature.Recv() != nil && sf.Object() != nil && recvNamed(sf.Object().(*types.Func)) == "Parser" {
 				// a wrapper method of the parser: look at what it returns
 				allInstrs(sf, func(in ssa.Instruction) {
 					if r, ok := in.(*ssa.Return); ok && len(r.Results) > 0 {
@@ -1823,7 +1846,7 @@ func (c *Ctx) RuleExclOrder() *Result {
 // repository installs bufio.ScanLines; one scanner is not given different
 // split functions on different paths.
 func (c *Ctx) RuleScanSplit() *Result {
-	res := &Result{Rule: "SCAN-SPLIT", MinInst: 5}
+	res := &Result{Rule: "SCAN-SPLIT", MinInst: 1}
 	for _, fn := range c.P.RepoFns {
 		if len(fn.Blocks) == 0 {
 			continue
